@@ -216,8 +216,12 @@ DE43_TEXTS = [
 ]
 
 NUM_VARIANTS = 5
-DEC_VARIANTS = 8
-DATE_DAYS = [(1, 1, 0, 0, 0), (2, 28, 12, 30, 59), (12, 31, 23, 59, 59), (2, 29, 6, 7, 8)]
+DEC_VARIANTS = 12
+# the last two are computed per year: 02:30 on the second Sunday of March (an hour that does not exist on a US-rule
+# daylight-saving wall clock) and 01:30 on the first Sunday of November (an hour that exists twice) - the values are
+# naive, so they must come back unchanged whatever zone the process runs in
+DATE_DAYS = [(1, 1, 0, 0, 0), (2, 28, 12, 30, 59), (12, 31, 23, 59, 59), (2, 29, 6, 7, 8), ('gap', 0, 2, 30, 0),
+             ('fold', 0, 1, 30, 0)]
 
 
 def number_value(width, idx, salt):
@@ -247,11 +251,25 @@ def decimal_value(width, idx):
         return decimal.Decimal('0.000001')
     if idx == 7:
         return decimal.Decimal('7E+0')
+    # values EQUAL to earlier ones but written differently (another scale): they must be emitted as written
+    if idx == 8:
+        return decimal.Decimal('12.50')
+    if idx == 9:
+        return decimal.Decimal('0.00')
+    if idx == 10:
+        return decimal.Decimal('1000')
+    if idx == 11:
+        return decimal.Decimal('12.500')
     return decimal.Decimal('12.5')
 
 
 def date_value(year, dayidx, fmt):
     mo, d, h, mi, s = DATE_DAYS[dayidx]
+    if mo in ('gap', 'fold'):
+        mo2 = 3 if mo == 'gap' else 11
+        first = datetime.date(year, mo2, 1)
+        d = 1 + (6 - first.weekday()) % 7 + (7 if mo == 'gap' else 0)
+        mo = mo2
     if (mo, d) == (2, 29) and not (year % 4 == 0 and (year % 100 != 0 or year % 400 == 0)):
         d = 28
     if '%H' not in fmt:
@@ -419,7 +437,7 @@ def single_variants(bc, tier='quick'):
         fmt = bc.get('field_date_format', '%y%m%d')
         for y in range(1969, 2069):
             for di in range(len(DATE_DAYS)):
-                if '%H' not in fmt and di in (1, 2) and y % 10:
+                if '%H' not in fmt and di in (1, 2, 4, 5) and y % 10:
                     continue
                 out.append(['D', [y, di]])
     return out
